@@ -125,4 +125,82 @@ theorem chunk_route_eq_global (labels : List κ) (chunk : List (Option κ)) (key
     rw [List.getD_eq_getElem?_getD, List.getElem?_map, List.getElem?_eq_getElem hlt]
     simp [List.getElem_idxOf hlt]
 
+/-! ### the block-wise strategy, stated about the translated source
+
+`srcRun` runs `Generated.Loops.group_by_reduce` (regenerated from `numba._group_by_reduce` on every run) on one
+block of rows; `srcCombine` is the fold of `combine_chunk_results_for_factorized_key` - `combined =
+reduce_array_pair(combined, chunk, f, counts=combined_count, y_counts=count); combined_count += count` - written with
+the translated `reduce_array_pair`.  The theorem below relates *source functions only*: whatever the block boundaries
+(thread split, value chunks, key chunks), the merged partials equal the single pass over all the rows. -/
+
+open LoopBridge in
+/-- one block of rows through the translated kernel of `kn` (target of `n` groups) -/
+def srcRun (kn : Kernel) (k : Kind) (n : Nat) (b : List Row) : (Int → Val) × (Int → Int) :=
+  (Generated.Loops.group_by_reduce k (b.map (·.1)).length (arrOf (b.map (·.1)) 0) (b.map (·.2)).length
+    (arrOf (b.map (·.2)) .nan) n (fun _ => kn.init k) (kn.red generatedReducers k) false [] true).1
+
+/-- `combine_chunk_results_for_factorized_key` with the translated `reduce_array_pair` -/
+def srcCombine (kn : Kernel) (k : Kind) (n : Nat) (acc : (Int → Val) × (Int → Int)) (bs : List (List Row)) :
+    (Int → Val) × (Int → Int) :=
+  bs.foldl (fun acc b =>
+    let r := srcRun kn k n b
+    ((Generated.Loops.reduce_array_pair k n acc.1 n r.1 (kn.mergeRed generatedReducers k) true n acc.2 true n r.2).1,
+      fun i => acc.2 i + r.2 i)) acc
+
+theorem zip_fst_snd (b : List Row) : (b.map (·.1)).zip (b.map (·.2)) = b := by
+  induction b with
+  | nil => rfl
+  | cons r rs ih => simp [ih]
+
+theorem srcRun_eq (kn : Kernel) (k : Kind) (n : Nat) (b : List Row) (g : Int) (hg : 0 ≤ g) :
+    ((srcRun kn k n b).1 g, (srcRun kn k n b).2 g) = groupByReduce (kn.red modelReducers k) (kn.init k) b g := by
+  have h := LoopBridge.group_by_reduce_plain k (kn.red generatedReducers k) (kn.init k) (b.map (·.1)) (b.map (·.2))
+    (by simp) n true g hg
+  rw [zip_fst_snd, C04.generated_eq_model] at h
+  exact h.2
+
+theorem srcCombine_eq (kn : Kernel) (k : Kind) (n : Nat) (bs : List (List Row)) (acc : (Int → Val) × (Int → Int))
+    (p : Int → Partial) (hacc : ∀ i : Nat, i < n → (acc.1 i, acc.2 i) = p i) (i : Nat) (hi : i < n) :
+    ((srcCombine kn k n acc bs).1 i, (srcCombine kn k n acc bs).2 i)
+      = (bs.map (groupByReduce (kn.red modelReducers k) (kn.init k))).foldl (mergeArr (kn.mergeRed modelReducers k)) p i := by
+  induction bs generalizing acc p with
+  | nil => exact hacc i hi
+  | cons b bs ih =>
+    simp only [srcCombine, List.foldl_cons, List.map_cons]
+    apply ih
+    intro j hj
+    have hm := C04.source_merge_eq_mergePair kn k n acc.1 (srcRun kn k n b).1 acc.2 (srcRun kn k n b).2 j hj
+    have hb := srcRun_eq kn k n b (j : Int) (by omega)
+    have ha := hacc j hj
+    show ((Generated.Loops.reduce_array_pair k n acc.1 n (srcRun kn k n b).1 (kn.mergeRed generatedReducers k) true n
+      acc.2 true n (srcRun kn k n b).2).1 j, acc.2 j + (srcRun kn k n b).2 j) = _
+    rw [hm.2, ha, hb]
+    rfl
+
+/-- **block-wise = single pass, at the source level**: for every kernel and supported dtype class and every list of
+blocks (any number, any boundaries, empty blocks, groups absent from a block), the translated kernel run block by
+block and merged by the translated `reduce_array_pair` in the order of `combine_chunk_results_for_factorized_key`
+gives, at every group, what the translated kernel gives in one pass over all the rows -/
+theorem source_blockwise_eq_single_pass (kn : Kernel) (k : Kind) (hk : k.Supported) (n : Nat)
+    (b0 : List Row) (bs : List (List Row)) (hwf : C04.BlocksWF k (b0 :: bs)) (g : Nat) (hg : g < n) :
+    let m := srcCombine kn k n (srcRun kn k n b0) bs
+    let r := srcRun kn k n (b0 :: bs).flatten
+    (m.1 g, m.2 g) = (r.1 g, r.2 g) := by
+  intro m r
+  have h1 := srcCombine_eq kn k n bs (srcRun kn k n b0) (groupByReduce (kn.red modelReducers k) (kn.init k) b0)
+    (fun i _ => srcRun_eq kn k n b0 (i : Int) (by omega)) g hg
+  obtain ⟨p, hp, hpg⟩ := C04.blockwise_eq_single_pass kn k hk b0 bs hwf (g : Int) (by omega)
+  simp only [List.map_cons, combine, Option.some.injEq] at hp
+  subst hp
+  show ((srcCombine kn k n (srcRun kn k n b0) bs).1 g, (srcCombine kn k n (srcRun kn k n b0) bs).2 g) = _
+  rw [h1, hpg]
+  exact (srcRun_eq kn k n (b0 :: bs).flatten (g : Int) (by omega)).symm
+
+/-- non-vacuity: three blocks (one empty, one where group 0 is absent), max over floats with a NaN and a null key -/
+example :
+    let bs : List (List Row) := [[], [(1, .num 9), (-1, .num 100)]]
+    let b0 : List Row := [(0, .num 3), (1, .nan), (0, .num 1)]
+    let m := srcCombine .max .f 2 (srcRun .max .f 2 b0) bs
+    ((m.1 0, m.2 0), (m.1 1, m.2 1)) = ((.num 3, 2), (.num 9, 1)) := by decide
+
 end GV.C03
